@@ -46,6 +46,8 @@ package ordered
 //@   requires m != nil && wf(m)
 //@   assigns m.index, m.items, *m.index, m.items[..]
 //@   ensures [wf] wf(m)
+//@   ensures [alloc] m.index != nil && (old(m.index) != nil ==> m.index == old(m.index)) && (old(m.index) == nil ==> fresh(m.index)) &&
+//@       (arr(m.items) == old(arr(m.items)) || fresh(m.items))
 //@   ensures [dom] forall k2 K :: {has(m.index,k2)} has(m.index,k2) == (old(has(m.index,k2)) || k2 == k)
 //@   ensures [present] old(has(m.index,k)) ==> len(m.items) == old(len(m.items)) &&
 //@       (forall i int :: {m.items[i]} 0 <= i && i < len(m.items) ==>
@@ -176,3 +178,44 @@ package ordered
 //@     invariant [dom] forall k2 K :: {has(um,k2)} has(um,k2) == (has(m.index,k2) && m.index[k2] < $idx)
 //@     invariant [val] forall k2 K :: {um[k2]} has(um,k2) ==> um[k2] == m.items[m.index[k2]].Value
 //@     decreases len(m.items) - $idx
+
+// verifCollect is a specification harness used only by the deductive checks
+// (build tag verif): it observes a map the way every in-order consumer does,
+// through Range, so that "iteration yields the live items in order" is a
+// postcondition proved over Range's real body.
+func verifCollect[K comparable, V any](m *Map[K, V]) []Tuple[K, V] {
+	var out []Tuple[K, V]
+	m.Range(func(k K, v V) error {
+		out = append(out, Tuple[K, V]{Key: k, Value: v})
+		return nil
+	})
+	return out
+}
+
+//@ func verifCollect
+//@   requires m != nil ==> wf(m)
+//@   assigns nothing
+//@   ensures [len] len(ret) == (m == nil ? 0 : len(m.index))
+//@   ensures [order] m != nil ==> forall x int :: {m.items[x]} 0 <= x && x < len(m.items) && !m.items[x].deleted ==>
+//@       ret[live(m.items, x)].Key == m.items[x].Key && ret[live(m.items, x)].Value == m.items[x].Value
+//@   loop Range.0
+//@     assigns out, out[..]
+//@     invariant [bounds] 0 <= $idx && $idx <= len(m.items) && len(out) == live(m.items, $idx) && loopfresh(out)
+//@     invariant [order] forall x int :: {m.items[x]} 0 <= x && x < $idx && !m.items[x].deleted ==>
+//@         out[live(m.items, x)].Key == m.items[x].Key && out[live(m.items, x)].Value == m.items[x].Value
+//@     decreases len(m.items) - $idx
+
+//@ func MapFromItems
+//@   assigns nothing
+//@   ensures [fresh] ret != nil && fresh(ret)
+//@   ensures [wf] wf(ret)
+//@   ensures [keys] forall k2 K :: {has(ret.index,k2)} has(ret.index,k2) ==> (exists i int :: 0 <= i && i < len(ps) && ps[i].Key == k2)
+//@   ensures [all] forall i int :: {ps[i]} 0 <= i && i < len(ps) ==> has(ret.index, ps[i].Key)
+//@   loop 0
+//@     assigns m.index, m.items, *m.index, m.items[..]
+//@     invariant [shape] 0 <= $idx && $idx <= len(ps) && m != nil && fresh(m) && m.index != nil && fresh(m.index) && m.index == atloop(m.index) &&
+//@         (arr(m.items) == atloop(arr(m.items)) || loopfresh(m.items)) && fresh(m.items)
+//@     invariant [wf] wf(m)
+//@     invariant [keys] forall k2 K :: {has(m.index,k2)} has(m.index,k2) ==> (exists i int :: 0 <= i && i < $idx && ps[i].Key == k2)
+//@     invariant [all] forall i int :: {ps[i]} 0 <= i && i < $idx ==> has(m.index, ps[i].Key)
+//@     decreases len(ps) - $idx
